@@ -47,6 +47,24 @@ def run_case(c):
                 if calc_duration(a, b) != spec.duration_spec(a, b):
                     return {"ok": False, "evaluations": n, "case": {"prop": "C14", "kind": "pair", "inputs": {"start": a, "end": b}}}
         return {"ok": True, "evaluations": n}
+    if k == "listed":
+        # schedules listed by a device (records with arbitrary epoch stamps, host zone with DST): duration of the reported times
+        from aioswitcher.schedule.parser import get_schedules
+        rnd = random.Random(i["seed"])
+        for n in range(i["n"]):
+            recs = bytearray()
+            for j in range(rnd.randrange(1, 4)):
+                q = bytearray(16)
+                q[0], q[1], q[2], q[3] = j, 1, rnd.choice([0, 2, 254]), 1
+                base = rnd.choice([1700000000, 1775311200, 1791036000, 1759586400])     # incl. instants next to Lord Howe DST changes
+                q[4:8] = (base + rnd.randrange(-7200, 7200)).to_bytes(4, "little")
+                q[8:12] = (base + rnd.randrange(-7200, 90000)).to_bytes(4, "little")
+                recs += q
+            for s_ in get_schedules(bytes(45) + bytes(recs) + bytes(4)):
+                if s_.duration != spec.duration_spec(s_.start_time, s_.end_time):
+                    return {"ok": False, "evaluations": n + 1, "detail": f"listed schedule {s_.start_time}->{s_.end_time} reports duration {s_.duration}",
+                            "expected": spec.duration_spec(s_.start_time, s_.end_time)}
+        return {"ok": True, "evaluations": i["n"]}
     if k == "schedules":
         # sequences of schedule objects, slot ids repeating with different times (a duration must never be remembered per slot)
         from aioswitcher.schedule.parser import SwitcherSchedule
